@@ -820,7 +820,15 @@ func (m *Module) OnBeginBlock(w *engine.World, ph *engine.Phase) {
 // OnEndBlock only keeps the sheet: which pools end in this block is known for certain
 // only after the queries of OnCommit (an adjust in this very block may have moved an end
 // height onto it).
-func (m *Module) OnEndBlock(w *engine.World, ph *engine.Phase) { m.endSheet = ph.Sheet }
+func (m *Module) OnEndBlock(w *engine.World, ph *engine.Phase) {
+	m.endSheet = ph.Sheet
+	if w.Mod("service") != nil {
+		// other end blockers move coins of the same accounts in this run (service refunds and
+		// charges its consumers, who may be pool creators): judge only the transfers in which
+		// the farm escrow or the reward collector is a party
+		m.endSheet = engine.TransferSheet(ph.Events, map[string]bool{farmAddr: true, collAddr: true})
+	}
+}
 
 func (m *Module) OnCommit(w *engine.World) {
 	h := w.Height
